@@ -1,7 +1,7 @@
 (* Props/C15.v — property C15: internal key order and index-key shortening obey their laws.
    Property theorems only; each is closed by [exact lemma] and followed by Print Assumptions. *)
 From GL Require Import Base.Order Base.BytesProofs Base.OrderProofs Codec.BytesCmp Codec.BytesCmpProofs
-  Codec.IKey Codec.IKeyProofs Gen.ConstsOk.
+  Codec.IKey Codec.IKeyProofs Codec.IKeyProbeProofs Gen.ConstsOk.
 
 (* 1. The internal order is a strict total order for every valid comparer; Eq iff identical. *)
 Theorem C15_icmp_eq : forall c, comparer_ok c -> forall a b, icmp c a b = Eq <-> a = b.
@@ -47,6 +47,30 @@ Theorem C15_probe_not_after_older : forall c, comparer_ok c -> forall k s s' t,
   icmp c (probe kp k s) {| uk := k; num := pack s' t |} <> Gt.
 Proof. intros c ok. exact (probe_not_after_older c ok kp). Qed.
 Print Assumptions C15_probe_not_after_older.
+
+(* 3b. Probe placement, complete: over ALL entries (any user key), the entries sorting strictly
+      before the probe (k, s, Seek) are exactly those with a smaller user key and those of k newer
+      than s.  Lifted to any run sorted by the internal order and split at the probe: nothing
+      before the split is an entry of k visible at s; the entry the seek lands on, if it carries
+      k, is visible at s and no visible entry of k in the run is newer; if it carries another
+      key, k has no visible entry in the run at all. *)
+Theorem C15_probe_precedes_iff : forall c, comparer_ok c -> forall e s' t k s,
+  num e = pack s' t -> (t <= keyTypeSeek kp)%N ->
+  icmp c e (probe kp k s) = Lt <-> (cmp c (uk e) k = Lt \/ (uk e = k /\ (s < s')%N)).
+Proof. intros c ok. exact (probe_precedes_iff c ok kp kp_ok). Qed.
+Print Assumptions C15_probe_precedes_iff.
+
+Theorem C15_probe_lands_on_newest_visible : forall c, comparer_ok c -> forall l1 e l2 k s,
+  sorted c (l1 ++ e :: l2) ->
+  (forall x, In x (l1 ++ e :: l2) -> trailer_ok kp x) ->
+  (forall x, In x l1 -> icmp c x (probe kp k s) = Lt) ->
+  icmp c e (probe kp k s) <> Lt ->
+  (forall x, In x l1 -> ~ (uk x = k /\ (seq_of x <= s)%N)) /\
+  (uk e = k -> (seq_of e <= s)%N /\
+     forall x, In x (l1 ++ e :: l2) -> uk x = k -> (seq_of x <= s)%N -> (seq_of x <= seq_of e)%N) /\
+  (uk e <> k -> forall x, In x (l1 ++ e :: l2) -> ~ (uk x = k /\ (seq_of x <= s)%N)).
+Proof. intros c ok. exact (probe_lands_on_newest_visible c ok kp kp_ok). Qed.
+Print Assumptions C15_probe_lands_on_newest_visible.
 
 (* 4. Shortened index keys: a < isep a b < b, b < isucc b, for every valid comparer, including
       ones whose Separator/Successor return nil (None) or an unshortened string. *)
@@ -95,3 +119,23 @@ Example C15_nonvacuous :
     = Some {| uk := [1;3]%N; num := keyMaxNum kp |} /\
   icmp bytewise {| uk := [1]%N; num := pack 9 1 |} (probe kp [1]%N 5) = Lt.
 Proof. split; [exact bytewise_ok|]. split; vm_compute; reflexivity. Qed.
+
+(* Non-vacuity of 3b: a sorted run [a@9; b@7 | b@4; b@2; c@1] split at the probe (b, 5). *)
+Example C15_probe_run_nonvacuous :
+  let a := [1]%N in let b := [2]%N in let d := [3]%N in
+  let l1 := [ {| uk := a; num := pack 9 1 |}; {| uk := b; num := pack 7 1 |} ] in
+  let e := {| uk := b; num := pack 4 0 |} in
+  let l2 := [ {| uk := b; num := pack 2 1 |}; {| uk := d; num := pack 1 1 |} ] in
+  sorted bytewise (l1 ++ e :: l2) /\
+  (forall x, In x (l1 ++ e :: l2) -> trailer_ok kp x) /\
+  (forall x, In x l1 -> icmp bytewise x (probe kp b 5) = Lt) /\
+  icmp bytewise e (probe kp b 5) <> Lt /\ uk e = b /\ seq_of e = 4%N.
+Proof.
+  cbv zeta. split; [vm_compute; tauto|]. split.
+  - intros x Hx. cbn in Hx.
+    destruct Hx as [<-|[<-|[<-|[<-|[<-|[]]]]]];
+      [exists 9%N, 1%N | exists 7%N, 1%N | exists 4%N, 0%N | exists 2%N, 1%N | exists 1%N, 1%N];
+      (split; [vm_compute; reflexivity | vm_compute; discriminate]).
+  - split; [intros x Hx; cbn in Hx; destruct Hx as [<-|[<-|[]]]; vm_compute; reflexivity|].
+    split; [vm_compute; discriminate|]. split; vm_compute; reflexivity.
+Qed.
